@@ -60,6 +60,102 @@ def scan_function(fn: ast.AST, in_init: bool):
     return out
 
 
+VIEW_CALLS = {"asarray", "asanyarray", "atleast_1d", "atleast_2d", "ascontiguousarray", "squeeze", "ravel", "reshape", "transpose", "view", "swapaxes", "moveaxis"}
+
+
+def _alias_of_self(e):
+    """attr X if the expression denotes the very storage of `self.X` (no copy): self.X, a basic slice / .T / view / reshape of it,
+    np.asarray(self.X, ...) (no copy when the dtype already matches -- which is the case for what the object stored itself)"""
+    if isinstance(e, ast.Attribute) and e.attr == "T":
+        return _alias_of_self(e.value)
+    if isinstance(e, ast.Subscript):
+        sl = e.slice
+        parts = sl.elts if isinstance(sl, ast.Tuple) else [sl]
+        if all(isinstance(x, ast.Slice) or (isinstance(x, ast.Constant) and x.value in (None, Ellipsis)) for x in parts):
+            return _alias_of_self(e.value)
+        return None
+    if isinstance(e, ast.Call):
+        fn = dotted(e.func) or ""
+        last = fn.rsplit(".", 1)[-1]
+        if last in VIEW_CALLS:
+            if isinstance(e.func, ast.Attribute) and not fn.startswith(("np.", "numpy.")):
+                return _alias_of_self(e.func.value)  # self.X.reshape(...)
+            if e.args and not any(k.arg == "copy" for k in e.keywords):
+                return _alias_of_self(e.args[0])
+        return None
+    return _self_attr(e) if not isinstance(e, ast.Subscript) else None
+
+
+def scan_aliases(fn: ast.AST, in_init: bool):
+    """[(kind, attr, node)]: stores through a local name that (on some path reaching the store) is bound to the storage of `self.X`"""
+    if in_init or isinstance(fn, ast.Lambda):
+        return []
+    from .. import cfg as cfgmod
+    binds = []  # (stmt, name, attr)
+    for n in ast.walk(fn):
+        if isinstance(n, ast.Assign) and len(n.targets) == 1 and isinstance(n.targets[0], ast.Name):
+            a = _alias_of_self(n.value)
+            if a:
+                binds.append((n, n.targets[0].id, a))
+    if not binds:
+        return []
+    g = cfgmod.CFG(fn.body, getattr(fn, "name", ""))
+    out = []
+
+    def stores_through(node_ast, name):
+        res = []
+        cand = [node_ast] if isinstance(node_ast, (ast.Assign, ast.AugAssign)) else []
+        for st in cand:
+            tg = st.targets if isinstance(st, ast.Assign) else [st.target]
+            for t in tg:
+                for tt in (t.elts if isinstance(t, (ast.Tuple, ast.List)) else [t]):
+                    if isinstance(tt, ast.Subscript):
+                        b = tt
+                        while isinstance(b, ast.Subscript):
+                            b = b.value
+                        if isinstance(b, ast.Name) and b.id == name:
+                            res.append(st)
+                    elif isinstance(st, ast.AugAssign) and isinstance(tt, ast.Name) and tt.id == name:
+                        res.append(st)  # `a op= e` on an ndarray is in place
+        if isinstance(node_ast, ast.Expr) and isinstance(node_ast.value, ast.Call):
+            c = node_ast.value
+            for k in c.keywords:
+                if k.arg == "out" and isinstance(k.value, ast.Name) and k.value.id == name:
+                    res.append(node_ast)
+            if isinstance(c.func, ast.Attribute) and isinstance(c.func.value, ast.Name) and c.func.value.id == name and c.func.attr in ("fill", "sort", "put", "itemset", "resize", "partition"):
+                res.append(node_ast)
+        return res
+
+    for st, name, attr in binds:
+        n0 = g.node_of(st)
+        if n0 is None:
+            continue
+        seen = set()
+        stack = [m for m, _l in g.succ[n0]]
+        while stack:
+            n = stack.pop()
+            if n in seen:
+                continue
+            seen.add(n)
+            a = n.ast
+            hits = stores_through(a, name) if a is not None else []
+            for h in hits:
+                out.append(("alias-store", attr, h))
+            rebinds = isinstance(a, ast.Assign) and any(isinstance(t, ast.Name) and t.id == name for t in a.targets)
+            if isinstance(a, ast.AugAssign) and isinstance(a.target, ast.Name) and a.target.id == name:
+                rebinds = False
+            if rebinds:
+                continue
+            stack.extend(m for m, _l in g.succ[n])
+    # one report per store
+    uniq, seen_ids = [], set()
+    for k, a, h in out:
+        if id(h) not in seen_ids:
+            seen_ids.add(id(h))
+            uniq.append((k, a, h))
+    return uniq
+
+
 def _in_nested(fn, node) -> bool:
     for x in ast.walk(fn):
         if x is fn:
@@ -86,7 +182,7 @@ def check(ctx, col, rule: str, modules: tuple):
         for name, d in c.methods.items():
             if d.is_property() or any(x.endswith(".setter") for x in d.decorators) or d.is_staticmethod() or d.is_classmethod():
                 continue
-            for kind, attr, node in scan_function(d.node, in_init=(name == "__init__")):
+            for kind, attr, node in scan_function(d.node, in_init=(name == "__init__")) + scan_aliases(d.node, in_init=(name == "__init__")):
                 hits += 1
                 col.bad(rule, d.qualname, d.loc(node), f"applying `{c.name}` leaves the transform object unchanged",
                         f"`{norm_src(node)[:90]}` changes `self.{attr}` " + ("whenever the callback created here runs" if name == "__init__" else f"in `{name}`")
@@ -97,8 +193,9 @@ def check(ctx, col, rule: str, modules: tuple):
     found = {}
     for c in fx.classes.values():
         if c.module.name.endswith("stateless_positive"):
-            found[c.name] = sum(len(scan_function(d.node, in_init=(n == "__init__"))) for n, d in c.methods.items())
-    ok = found.get("StaleList", 0) >= 1 and found.get("ReassignsMatrix", 0) >= 1 and found.get("Balanced", 1) == 0 and found.get("Plain", 1) == 0
+            found[c.name] = sum(len(scan_function(d.node, in_init=(n == "__init__")) + scan_aliases(d.node, in_init=(n == "__init__"))) for n, d in c.methods.items())
+    ok = found.get("StaleList", 0) >= 1 and found.get("ReassignsMatrix", 0) >= 1 and found.get("Balanced", 1) == 0 and found.get("Plain", 1) == 0 \
+        and found.get("WritesThroughAlias", 0) == 1 and found.get("AliasOnlyOnOtherArm", 1) == 0
     col.check(ok, rule, "sa.fixtures.stateless_positive", "sa/fixtures/stateless_positive.py:1",
               f"lint recognises its kept positive examples ({n_cls} transform classes scanned, {hits} hit(s))", str(found),
               f"fixture results {found}", stmt="fixture")
@@ -128,3 +225,16 @@ def check_memo(ctx, col, rule: str, modules: tuple):
     col.analysed[f"memo_scope_classes:{rule}"] = n_cls
     col.ok(rule, "memo-scan", "", f"{n_cls} geometry-carrying classes scanned for values kept on self outside construction", f"{hits} hit(s)", stmt="memo-scan")
     return hits
+
+
+CORE_MODULES = ("swcgeom.core.tree", "swcgeom.core.path", "swcgeom.core.node", "swcgeom.core.branch", "swcgeom.core.compartment",
+                "swcgeom.core.branch_tree", "swcgeom.core.swc", "swcgeom.core.segment")
+
+
+def run_memo(ctx, col, rule: str = "R-MEMO"):
+    """Declare and run the kept-on-the-object lint over the tree / view classes (one text for every property that relies on it)."""
+    col.rule(rule, "nothing computed from the tree is kept on the tree / node / path / branch object: outside construction and setters no "
+             "method of these classes stores to self -- copies are deep and topology and coordinates are then edited in place (re-rooting, "
+             "concatenation, node setters, transforms), so a kept children index, decomposition or measure describes the tree before the edit; "
+             "zero expected, positive examples are those of the transform-state lint", floor=1)
+    return check_memo(ctx, col, rule, CORE_MODULES)
